@@ -1,7 +1,7 @@
 (** C07_micro. put split at its schedule points: the race between two puts of one key
     This file only pins statements: every theorem restates a lemma of proofs/ verbatim and is closed by it. *)
 From CacheD Require Import Base Sketch Model Window Micro.
-From CacheD.proofs Require Import Defs ApiProofs HistoryProofs.
+From CacheD.proofs Require Import Defs ApiProofs HistoryProofs StatsProofs.
 From CacheD.proofs Require Import MicroProofs.
 
 (** (C05 / C07, the race the worker's re-check closes): both puts are queued, the one that is executed first is
